@@ -95,7 +95,7 @@ fn run(args: &Args) {
         let mut hash_ctr = 0u8;
         for _ in 0..len {
             let dbid = 1 + rng.below(4);
-            let before_fp = fingerprint(&sys.node);
+            let before_fp = fingerprint_full(&sys.node);
             let before_store = store_dump(&sys.world.persister);
             let node = sys.node.clone();
             let cid = sys.cid(dbid);
@@ -187,7 +187,7 @@ fn run(args: &Args) {
             if ok { e.0 += 1 } else { e.1 += 1 }
             // ---- C10
             if !ok && !restarted {
-                let mut d = fingerprint_diff(&before_fp, &fingerprint(&sys.node));
+                let mut d = fingerprint_diff(&before_fp, &fingerprint_full(&sys.node));
                 d.extend(store_diff(&before_store, &store_dump(&sys.world.persister)));
                 if !d.is_empty() {
                     c10.push(format!("refused {} changed: {}", coq, d.join("; ")));
